@@ -25,9 +25,11 @@ Known == {"nl.bsn", "nl.onderwijsnummer", "pl.nip", "pl.regon", "pt.nif", "dk.cv
           "ar.dni", "ar.cbu", "at.businessid", "at.vnr", "br.cnpj", "ca.bn", "ca.bc_phn", "ch.esr", "ch.vat", "cn.uscc", "cr.cr",
           "de.idnr", "de.wkn", "dz.nif", "eu.banknote", "eu.eic", "fo.vn",
           "ec.ruc", "es.ccc", "es.postal_code", "eu.ecnumber", "eu.oss", "gh.tin", "gn.nifp", "il.hp", "in_.aadhaar", "in_.vid",
-          "in_.epic", "it.aic", "mc.tva", "nl.postcode", "nl.brin", "nl.identiteitskaartnummer", "no.kontonr", "pk.cnic"}
+          "in_.epic", "it.aic", "mc.tva", "nl.postcode", "nl.brin", "nl.identiteitskaartnummer", "no.kontonr", "pk.cnic",
+          "ad.nrt", "bg.pnf", "do.ncf", "es.cae", "fi.ytunnus", "fr.nif", "gb.upn", "ie.vat", "pe.cui", "pt.cc", "ru.ogrn",
+          "se.postnummer", "se.vat", "si.maticna", "sm.coe", "sv.nit", "th.moa"}
 (* formats with further rules (dates, ranges) that are not transcribed: the checksum is only a NECESSARY condition *)
-Necessary == {"no.fodselsnummer", "fi.hetu", "ch.ssn", "lv.pvn", "pl.pesel", "ee.ik"}
+Necessary == {"no.fodselsnummer", "fi.hetu", "ch.ssn", "lv.pvn", "pl.pesel", "ee.ik", "at.tin"}
 
 WRev(c, n, w) == Sum(LAMBDA i : w[i] * D(c[n + 1 - i]), n)      \* weights counted from the right over the first n characters
 LuhnSum(c) == Sum(LAMBDA i : IF (Len(c) - i) % 2 = 1 THEN DigitSum(2 * D(c[i])) ELSE D(c[i]), Len(c))
@@ -71,6 +73,11 @@ AicBase32 == <<48, 49, 50, 51, 52, 53, 54, 55, 56, 57, 66, 67, 68, 70, 71, 72, 7
 AicBase10Ok(c) == /\ Len(c) = 9 /\ IsDigits(c) /\ c[1] = 48
                   /\ Sum(LAMBDA i : DigitSum((IF i % 2 = 1 THEN 1 ELSE 2) * D(c[i])), 8) % 10 = D(c[9])
 EsCccDigit(ten) == LET r == Sum(LAMBDA i : D(ten[i]) * (2 ^ (i - 1)), 10) % 11 IN IF r < 2 THEN r ELSE 11 - r
+EsCaeActivities == {<<65, 49>>, <<66, 49>>, <<66, 57>>, <<66, 48>>, <<66, 65>>, <<67, 49>>, <<68, 65>>, <<69, 67>>, <<70, 49>>, <<86, 49>>, <<65, 55>>, <<65, 84>>, <<66, 55>>, <<66, 84>>, <<67, 55>>, <<68, 66>>, <<69, 55>>, <<77, 55>>, <<79, 65>>, <<79, 66>>, <<79, 69>>, <<79, 86>>, <<86, 55>>, <<66, 54>>, <<65, 50>>, <<65, 54>>, <<65, 57>>, <<65, 48>>, <<65, 67>>, <<65, 86>>, <<65, 87>>, <<65, 88>>, <<72, 49>>, <<72, 50>>, <<72, 52>>, <<72, 54>>, <<72, 57>>, <<72, 48>>, <<72, 68>>, <<72, 72>>, <<72, 55>>, <<72, 56>>, <<72, 66>>, <<72, 70>>, <<72, 73>>, <<72, 74>>, <<72, 75>>, <<72, 76>>, <<72, 77>>, <<72, 78>>, <<72, 84>>, <<72, 85>>, <<72, 86>>, <<72, 88>>, <<72, 90>>, <<79, 72>>, <<72, 65>>, <<72, 67>>, <<72, 69>>, <<72, 80>>, <<72, 81>>, <<72, 82>>, <<72, 83>>, <<72, 87>>, <<84, 49>>, <<79, 84>>, <<84, 55>>, <<84, 84>>, <<76, 49>>, <<76, 50>>, <<76, 48>>, <<76, 51>>, <<76, 55>>, <<65, 70>>, <<68, 70>>, <<68, 77>>, <<68, 80>>, <<79, 82>>, <<80, 70>>, <<82, 70>>, <<86, 68>>}
+GbLaNumbers == {201, 202, 203, 204, 205, 206, 207, 208, 209, 210, 211, 212, 213, 301, 302, 303, 304, 305, 306, 307, 308, 309, 310, 311, 312, 313, 314, 315, 316, 317, 318, 319, 320, 330, 331, 332, 333, 334, 335, 336, 340, 341, 342, 343, 344, 350, 351, 352, 353, 354, 355, 356, 357, 358, 359, 370, 371, 372, 373, 380, 381, 382, 383, 384, 390, 391, 392, 393, 394, 420, 800, 801, 802, 803, 805, 806, 807, 808, 810, 811, 812, 813, 815, 816, 821, 822, 823, 825, 826, 830, 831, 835, 836, 837, 840, 841, 845, 846, 850, 851, 852, 855, 856, 857, 860, 861, 865, 866, 867, 868, 869, 870, 871, 872, 873, 874, 876, 877, 878, 879, 880, 881, 882, 883, 884, 885, 886, 887, 888, 889, 890, 891, 892, 893, 894, 895, 896, 908, 909, 916, 919, 921, 925, 926, 928, 929, 931, 933, 935, 936, 937, 938}
+UpnAlphabet == <<65, 66, 67, 68, 69, 70, 71, 72, 74, 75, 76, 77, 78, 80, 81, 82, 84, 85, 86, 87, 88, 89, 90, 48, 49, 50, 51, 52, 53, 54, 55, 56, 57>>
+IeAlpha(ch) == ch = 87 \/ ch \in 65..86
+ThPinCheck(c) == (11 - (W(c, <<13, 12, 11, 10, 9, 8, 7, 6, 5, 4, 3, 2>>) % 11)) % 10
 EstonianCheck(c, n) ==        \* check digit over the first n digits: weights 1,2,..,9,1,.. and, when that gives 10, 3,4,..,9,1,2,..
   LET s1 == Sum(LAMBDA i : (((i - 1) % 9) + 1) * D(c[i]), n) % 11
       s2 == Sum(LAMBDA i : (((i + 1) % 9) + 1) * D(c[i]), n) % 11
@@ -327,6 +334,49 @@ AcceptN(m, c) ==
                            /\ \/ Len(c) = 7 /\ LuhnSum(c) % 10 = 0
                               \/ Len(c) = 11 /\ (11 - (W(c, <<5, 4, 3, 2, 7, 6, 5, 4, 3, 2>>) % 11)) % 11 = D(c[11])
     [] m = "pk.cnic" -> Len(c) = 13 /\ IsDigits(c) /\ c[13] # 48 /\ D(c[1]) \in 1..7
+    [] m = "ad.nrt" -> /\ Len(c) = 8 /\ In(c[1], <<65, 67, 68, 69, 70, 71, 76, 79, 80, 85>>) /\ c[8] \in 65..90 /\ IsDigits(SubSeq(c, 2, 7))
+                       /\ (c[1] = 70 => NumOf(c, 2, 7) <= 699999)
+                       /\ (c[1] \in {65, 76} => (NumOf(c, 2, 7) > 699999 /\ NumOf(c, 2, 7) < 800000))
+    [] m = "bg.pnf" -> Len(c) = 10 /\ IsDigits(c) /\ W(c, <<21, 19, 17, 13, 11, 9, 7, 3, 1>>) % 10 = D(c[10])
+    [] m = "do.ncf" -> CASE Len(c) = 13 -> c[1] = 69 /\ IsDigits(SubSeq(c, 2, 13)) /\ NumOf(c, 2, 3) \in {31, 32, 33, 34, 41, 43, 44, 45, 46, 47}
+                         [] Len(c) = 11 -> c[1] = 66 /\ IsDigits(SubSeq(c, 2, 11)) /\ NumOf(c, 2, 3) \in {1, 2, 3, 4, 11, 12, 13, 14, 15, 16, 17}
+                         [] Len(c) = 19 -> c[1] \in {65, 80} /\ IsDigits(SubSeq(c, 2, 19)) /\ NumOf(c, 10, 11) \in {1, 2, 3, 4, 11, 12, 13, 14, 15, 16, 17}
+                         [] OTHER -> FALSE
+    [] m = "es.cae" -> /\ Len(c) = 13 /\ SubSeq(c, 1, 5) = <<69, 83, 48, 48, 48>> /\ IsDigits(SubSeq(c, 6, 7)) /\ NumOf(c, 6, 7) \in 1..56
+                       /\ SubSeq(c, 8, 9) \in EsCaeActivities /\ IsDigits(SubSeq(c, 10, 12)) /\ c[13] \in 65..90
+    [] m = "fi.ytunnus" -> Len(c) = 8 /\ IsDigits(c) /\ W(c, <<7, 9, 10, 5, 8, 4, 2, 1>>) % 11 = 0
+    [] m = "fr.nif" -> Len(c) = 13 /\ IsDigits(c) /\ D(c[1]) <= 3 /\ ModOf(SubSeq(c, 1, 10), 511) = NumOf(c, 11, 13)
+    [] m = "gb.upn" -> /\ Len(c) = 13 /\ IsDigits(SubSeq(c, 2, 12)) /\ In(c[13], UpnAlphabet) /\ NumOf(c, 2, 4) \in GbLaNumbers
+                       /\ LET r == Sum(LAMBDA i : (i + 1) * (IndexIn(c[i + 1], UpnAlphabet) - 1), 12) % 23 IN c[1] = UpnAlphabet[r + 1]
+    [] m = "ie.vat" -> /\ Len(c) \in {8, 9} /\ c[1] \in 48..57 /\ IsDigits(SubSeq(c, 3, 7)) /\ (\A i \in 8..Len(c) : IeAlpha(c[i]))
+                       /\ IF c[2] \in 48..57
+                          THEN c[8] = IeCheck(SubSeq(c, 1, 7), IF Len(c) = 9 THEN IeLetterVal(c[9]) ELSE 0)
+                          ELSE (c[2] \in 65..90 \/ c[2] \in {43, 42}) /\ c[8] = IeCheck(<<48>> \o SubSeq(c, 3, 7) \o <<c[1]>>, 0)
+    [] m = "pe.cui" -> /\ Len(c) \in {8, 9} /\ IsDigits(SubSeq(c, 1, 8))
+                       /\ (Len(c) = 9 => LET r == W(c, <<3, 2, 7, 6, 5, 4, 3, 2>>) % 11
+                                         IN c[9] = <<54, 53, 52, 51, 50, 49, 49, 48, 57, 56, 55>>[r + 1] \/ c[9] = <<75, 74, 73, 72, 71, 70, 69, 68, 67, 66, 65>>[r + 1])
+    [] m = "pt.cc" -> /\ Len(c) >= 3 /\ c[Len(c)] \in 48..57 /\ IsDigits(SubSeq(c, 1, Len(c) - 3))
+                      /\ (\A i \in (Len(c) - 2)..(Len(c) - 1) : (c[i] \in 48..57) \/ (c[i] \in 65..90))
+                      /\ LET n == Len(c) - 1
+                             s == Sum(LAMBDA i : LET v == EicVal(c[n + 1 - i]) IN IF i % 2 = 1 THEN (IF 2 * v > 9 THEN 2 * v - 9 ELSE 2 * v) ELSE v, n)
+                         IN (10 - (s % 10)) % 10 = D(c[n + 1])
+    [] m = "ru.ogrn" -> /\ IsDigits(c)
+                        /\ \/ Len(c) = 13 /\ c[1] # 48 /\ ModOf(SubSeq(c, 1, 12), 11) % 10 = D(c[13])
+                           \/ Len(c) = 15 /\ c[1] \in {51, 52} /\ ModOf(SubSeq(c, 1, 14), 13) = D(c[15])
+    [] m = "se.postnummer" -> Len(c) = 5 /\ IsDigits(c) /\ c[1] # 48
+    [] m = "se.vat" -> Len(c) = 12 /\ IsDigits(c) /\ SubSeq(c, 11, 12) = <<48, 49>> /\ LuhnSum(SubSeq(c, 1, 10)) % 10 = 0
+    [] m = "si.maticna" -> /\ Len(c) \in {7, 10} /\ IsDigits(SubSeq(c, 1, 6))
+                           /\ (Len(c) = 10 => (((c[8] \in 48..57) \/ (c[8] \in 65..90)) /\ IsDigits(SubSeq(c, 9, 10))))
+                           /\ LET r == (11 - (W(c, <<7, 6, 5, 4, 3, 2>>) % 11)) % 11 IN r # 0 /\ c[7] = 48 + (r % 10)
+    [] m = "sm.coe" -> /\ Len(c) >= 1 /\ Len(c) <= 5 /\ IsDigits(c)
+                       /\ (Len(c) < 3 => NumOf(c, 1, Len(c)) \in {2, 4, 6, 7, 8, 9, 10, 11, 13, 16, 18, 19, 20, 21, 25, 26, 30, 32, 33, 35, 36, 37, 38, 39,
+                              40, 42, 45, 47, 49, 51, 52, 55, 56, 57, 58, 59, 61, 62, 64, 65, 66, 67, 68, 69, 70, 71, 72, 73, 74, 75, 76, 79, 80, 81,
+                              84, 85, 87, 88, 91, 92, 94, 95, 96, 97, 99})
+    [] m = "sv.nit" -> /\ Len(c) = 14 /\ IsDigits(c) /\ D(c[1]) \in {0, 1, 9}
+                       /\ IF NumOf(c, 11, 13) <= 100
+                          THEN (W(c, <<14, 13, 12, 11, 10, 9, 8, 7, 6, 5, 4, 3, 2>>) % 11) % 10 = D(c[14])
+                          ELSE ((11 - (W(c, <<2, 7, 6, 5, 4, 3, 2, 7, 6, 5, 4, 3, 2>>) % 11)) % 11) % 10 = D(c[14])
+    [] m = "th.moa" -> Len(c) = 13 /\ IsDigits(c) /\ c[1] = 48 /\ ThPinCheck(c) = D(c[13])
 
 (* checksum parts of formats with further rules *)
 NecessaryN(m, c) ==
@@ -340,5 +390,6 @@ NecessaryN(m, c) ==
     [] m = "lv.pvn" -> /\ Len(c) = 11 /\ IsDigits(c)
                        /\ (c[1] > 51 => W(c, <<9, 1, 4, 8, 3, 10, 2, 5, 7, 6, 1>>) % 11 = 3)
     [] m = "ee.ik" -> Len(c) = 11 /\ IsDigits(c) /\ EstonianCheck(c, 10) = D(c[11])
+    [] m = "at.tin" -> Len(c) = 9 /\ IsDigits(c) /\ (10 - (Sum(LAMBDA i : IF i % 2 = 0 THEN DigitSum(2 * D(c[i])) ELSE D(c[i]), 8) % 10)) % 10 = D(c[9])
     [] m = "pl.pesel" -> Len(c) = 11 /\ IsDigits(c) /\ (10 - (W(c, <<1, 3, 7, 9, 1, 3, 7, 9, 1, 3>>) % 10)) % 10 = D(c[11])
 =============================================================================
